@@ -32,6 +32,7 @@ package cookie
 //@ at call EncodeSessionState assert[encrypted-with-store-cipher] arg(EncodeSessionState, 1) == s.CookieCipher && arg(EncodeSessionState, 2)
 
 //@ func (*SessionStore).makeSessionCookie
+//@ requires[config:cookie-name-valid] validCookieName(s.Cookie.Name)
 //@ prop C09 C02 C18
 //@ at call SignedValue assert[signed-with-cookie-secret-name-and-time] arg(SignedValue, 0) == s.Cookie.Secret
 //@     && arg(SignedValue, 1) == s.Cookie.Name && arg(SignedValue, 2) == value && arg(SignedValue, 3) == now
@@ -46,6 +47,7 @@ package cookie
 //@ nomod
 //@ fresh
 //@ prop C18 C09
+//@ ensures[named-and-valued-as-asked] result != nil && result.Name == name && result.Value == value
 //@ ensures[single-constructor] ret0 == ret(MakeCookieFromOptions) && arg(MakeCookieFromOptions, 0) == req && arg(MakeCookieFromOptions, 1) == name
 //@     && arg(MakeCookieFromOptions, 2) == value && arg(MakeCookieFromOptions, 3) == s.Cookie && arg(MakeCookieFromOptions, 4) == expiration
 
@@ -105,6 +107,8 @@ package cookie
 //@ prop C10 C18 C19
 //@ requires[config:attribute-overhead-below-limit] forall k int :: k >= 0 ==> overheadOf(c, splitName(c.Name, k)) < 4000
 //@ requires[config:cookie-name-at-most-256-bytes] len(c.Name) <= 256
+//@ requires[config:cookie-name-valid] validCookieName(c.Name)
+//@ uses part-names-of-valid-names-are-valid
 //@ loop 0 ghost acc string init "" step acc + newCookie.Value
 //@ loop 0 invariant[nothing-lost-nothing-duplicated] acc + bytes(valueBytes) == old(c.Value) && c.Value == old(c.Value) && c.Name == old(c.Name)
 //@     && c.Path == old(c.Path) && c.Domain == old(c.Domain) && c.MaxAge == old(c.MaxAge) && c.Secure == old(c.Secure)
